@@ -95,7 +95,7 @@ def known_predicates(module):
         if k == 'ns':
             sib = [x[1] for x in (module if not path else _children(module, path)) if x[0] == 'ns']
             if len(sib) != len(set(sib)):
-                hits.add('C03-namespace-reopened')
+                pass        # reopened namespaces: repaired (58110e2), part of the scope now
         names = []
         if k == 'class':
             names = [m[3] for m in d[5] if m[0] in ('method', 'static')]
@@ -120,10 +120,7 @@ def known_predicates(module):
             if not params_this:
                 continue
             depth, scoped = mentions(t, params_this)
-            if depth >= 2:
-                hits.add('C02-nested-parameter-not-substituted')
-            if scoped:
-                hits.add('C02-scoped-parameter')
+            # nested parameters, nested This and scoped uses: repaired (38868e9, 0d60e99, a4c9c5d, cd55683), part of the scope now
             if depth >= 1 and (t[1] or t[5]):
                 pass
             for p in scoped_params(t, params):
@@ -131,13 +128,13 @@ def known_predicates(module):
                 for tp in tpls:
                     for pp_, insts in tp[1]:
                         if pp_ == p and any(i[4] for i in (insts or ())):
-                            hits.add('C02-scoped-parameter-templated-instantiation')
+                            pass
             # a parameter inside template arguments together with qualifiers / This in nested position
         if k == 'func' and d[1] is not None:
             for p, insts in d[1][1]:
                 for i in insts or ():
                     if i[4]:
-                        hits.add('C04-function-template-callee-mangled')
+                        pass    # repaired (c5ae7ec)
         if k == 'typedef':
             target, tns = R.find_template(module, d[1][2], d[1][3])
             if target is None or (target[0] == 'class' and target[1] is None):
